@@ -81,7 +81,7 @@ def stepAll (d : DS) (toks : List String) (impl : String) : DS × Res :=
     let id := unhex (kv toks "id")
     let key := xorKey id d.node
     let len := kvNat toks "len"
-    let x : Item := { be := beVal key, le := leVal key, len := len, val := fnvGen len (kvNat toks "seed") }
+    let x : Item := { be := beVal key, le := leVal key, len := len, val := if kv toks "zeros" == "1" then 0 else fnvGen len (kvNat toks "seed") }
     let preHeld := held d.st.items
     let r := put d.le d.st x
     let res := match r.2 with | .ok => "ok" | .insufficientRadius => "insufficient_radius"
